@@ -32,8 +32,8 @@ constexpr auto sinh_check(T const x) noexcept -> T
 {
     return ( // NaN check
         is_nan(x) ? etl::numeric_limits<T>::quiet_NaN() :
-                  // indistinguishable from zero
-            etl::numeric_limits<T>::epsilon() > abs(x) ? T(0)
+                  // sinh(x) = x + x^3/6 + ...: indistinguishable from x (also keeps the sign of a zero)
+            etl::numeric_limits<T>::epsilon() > abs(x) ? x
                                                        :
                                                        // else
             (exp(x) - exp(-x)) / T(2)
